@@ -119,10 +119,11 @@ def setup(ctx):
 
 # ---- M3: reference model -----------------------------------------------------------------
 class Model:
-    __slots__ = ("cls", "S", "N")
+    __slots__ = ("cls", "S", "N", "scale")
 
-    def __init__(self, cls, S, N):
+    def __init__(self, cls, S, N, scale=0.0):
         self.cls, self.S, self.N = cls, np.array(S), None if N is None else np.array(N)
+        self.scale = scale        # magnitude of the operands a sum/difference was formed from (rounding scales with them, not with the result)
 
     @property
     def total(self):
@@ -163,7 +164,8 @@ def model_addsub(m, other, sign, reflected):
         tot = m.total + sign * t2
     has = m.N is not None or has2
     status = "either" if (len1 == 1 and len2 > 1) else "ok"
-    out = Model(m.cls, tot, np.zeros_like(tot) if has else None)   # split between S and N is not fixed by the property
+    mag = max(float(np.max(np.abs(m.total))), float(np.max(np.abs(t2))) if np.size(t2) else 0.0)
+    out = Model(m.cls, tot, np.zeros_like(tot) if has else None, scale=mag)   # split between S and N is not fixed by the property
     return (status, out)
 
 
@@ -188,7 +190,7 @@ def compare(ctx, x, m, what, check_noise=True):
         ok = ctx.check("model.noise_presence", (x.noise is not None) == (m.N is not None), f"{what}: noise {'present' if x.noise is not None else 'absent'}, model says {'present' if m.N is not None else 'absent'}") and ok
     tot = x.signal + (x.noise if x.noise is not None else 0)
     want = m.total
-    scale = max(float(np.max(np.abs(want))), 1e-300)
+    scale = max(float(np.max(np.abs(want))), float(getattr(m, "scale", 0.0)), 1e-300)
     exact = np.issubdtype(np.asarray(want).dtype, np.integer)
     good = np.array_equal(tot, want) if exact else bool(np.all(np.abs(tot - want) <= 1e-12 * scale))
     ok = ctx.check("model.total", good, f"{what}: total field differs from the array-pair model", got=tot, want=want) and ok
